@@ -2146,10 +2146,16 @@ static bool parse_ignored(TokenContext &ctx, Chunk &pc)
    }
 
    // Look for the ending comment and let it pass
-   if (  parse_comment(ctx, pc)
-      && !cpd.unc_off)
+   ctx.save();
+
+   if (parse_comment(ctx, pc))
    {
-      return(true);
+      if (!cpd.unc_off)
+      {
+         return(true);
+      }
+      // a comment that does not switch processing on is region text like the rest of its line
+      ctx.restore();
    }
    // Reset the chunk & scan to until a newline
    pc.Str().clear();
